@@ -592,6 +592,32 @@ func seamA(rep *ev.Report) {
 		}
 	}
 
+	// ---- phase H: record lengths at the widths a length could be kept or bounded in: a padding extension sizes the
+	// first record's fragment to every value around 2^8, 2^12, 2^13 and up to the 2^14 limit of a TLS record
+	r.phase = "H_record_length"
+	{
+		base := &chello.Hello{Version: 0x0303, Ciphers: []uint16{0x1301, 0xc02b, 0x002f}, Exts: append(mkExts([]uint16{0, 10, 11}, defGroups, defPoints), chello.Padding(0))}
+		base0 := len(base.Record()) - 5
+		var want []int
+		for _, c := range []int{256, 4096, 8192} {
+			for d := -2; d <= 2; d++ {
+				want = append(want, c+d)
+			}
+		}
+		for l := 16384 - 12; l <= 16384; l++ {
+			want = append(want, l)
+		}
+		for _, l := range want {
+			if l < base0 || !r.mine() {
+				continue
+			}
+			h := *base
+			h.Exts = append(append([]chello.Ext(nil), base.Exts[:len(base.Exts)-1]...), chello.Padding(l-base0))
+			rec := h.Record()
+			r.eval(rec, fmt.Sprintf("first record with a fragment of %d bytes (padding extension of %d)", len(rec)-5, l-base0))
+		}
+	}
+
 	// ---- phase G: ClientHellos found in the pcap test data of /repo as extra seeds
 	r.phase = "G_pcap_seeds"
 	repo := os.Getenv("VERIF_REPO")
